@@ -94,22 +94,22 @@ pub fn build_version(src: &VSrc) -> Option<Version> {
             if !ok {
                 return None;
             }
-            // "canonical identifiers" means canonical for the parser of the tree under test: the
-            // field values must be what parsing their own canonical text yields.  (A tree that
-            // reads digit strings above MAX_SAFE_INTEGER as alphanumeric, as node-semver does,
-            // has a different set of canonical numeric identifiers; that is C05's business.)
+            // Identifiers are canonical by the type's own definition: `Numeric` for a number,
+            // `AlphaNumeric` for a non-empty string over [0-9A-Za-z-] that is not a number.  The
+            // only gate is length: the printed form must be something `parse` may accept at all.
+            // (A gate "parsing the canonical text yields the same fields" was tried after the
+            // first review and removed again: it hid changes that reclassify large numeric
+            // identifiers, which three independent sub-agents wrote as C12 defects - DESIGN 7.8.)
             let v = model_to_version(m);
             let text = crate::gen::canonical_text(m);
             if text.len() <= nodejs_semver::MAX_LENGTH {
-                match guarded(|| Version::parse(&text)) {
-                    Ok(Ok(p)) if version_identical(&p, &v) => Some(v),
-                    _ => None,
-                }
+                Some(v)
             } else {
                 None
             }
         }
-        VSrc::Tuple { ty, a, b, c, d } => tuple_version(*ty, *a, *b, *c, *d),
+        // a conversion that panics (a stricter debug_assert, say) makes the value unbuildable
+        VSrc::Tuple { ty, a, b, c, d } => guarded(|| tuple_version(*ty, *a, *b, *c, *d)).ok().flatten(),
     }
 }
 
